@@ -1,18 +1,16 @@
-use palette::convert::FromColorUnclamped;
-use palette::{Okhsl, Okhsv, Srgb};
+use palette::color_difference::DeltaE;
+use palette::white_point::D65;
+use palette::Lch;
 fn main() {
-    // where does Okhsv / Okhsl saturation exceed 1 + 1e-3 for in-gamut colours (f64)?
-    let mut buckets = std::collections::BTreeMap::new();
-    for r in (0..=255).step_by(1) { for g in (0..=255).step_by(1) { for b in (0..=255).step_by(1) {
-        if r != 0 && g != 0 && b != 0 && r != 255 && g != 255 && b != 255 { continue; }
-        let c = Srgb::new(r as f64 / 255.0, g as f64 / 255.0, b as f64 / 255.0);
-        let h = Okhsv::from_color_unclamped(c);
-        let hl = Okhsl::from_color_unclamped(c);
-        let ex = (h.saturation - 1.0).max(hl.saturation - 1.0).max(h.value - 1.0);
-        if ex > 1e-4 {
-            let e = buckets.entry((h.hue.into_positive_degrees() / 2.0) as i32 * 2).or_insert((0u32, 0.0f64, [0, 0, 0]));
-            e.0 += 1; if ex > e.1 { e.1 = ex; e.2 = [r, g, b]; }
+    let mut n = 0; let mut tot = 0;
+    for k in 0..1000 {
+        let d = 128.0 * 1e-9 * (1.0 + 0.37 * (k as f64 / 1000.0));
+        for c in [64.0f64, 32.0, 128.0 - 2e-7, 1.28e-7, 50.3] {
+            let v = Lch::<D65, f64>::new(50.0, c, 40.0).delta_e(Lch::new(50.0, c + d, 40.0));
+            tot += 1; if v.is_nan() { n += 1; }
         }
-    }}}
-    for (k, v) in buckets { println!("hue {}..{}: n={} max excess {:.3e} at {:?}", k, k + 2, v.0, v.1, v.2); }
+    }
+    println!("nan {} of {}", n, tot);
+    println!("{}", Lch::<D65, f32>::new(50.0, 50.0, 40.0).delta_e(Lch::new(50.0, 50.001, 40.0)));
+    println!("{}", Lch::<D65, f64>::new(50.0, 64.0, 40.0).delta_e(Lch::new(50.0, 64.00000013, 40.0)));
 }
